@@ -112,6 +112,8 @@ func TestC16(t *testing.T) {
 	p = c.rec.NewPart("boundary_inputs", "slot-, clip- and length-boundary inputs (see C06), incl. multi-byte characters across the 31-byte clip and BOM-prefixed fixtures", false, true, "")
 	c.ParRange(p, int64(len(bnd)), func(w *Worker, i int64) { judge(w, bnd[i]) })
 
+	p = c.rec.NewPart("source_bytes", fmt.Sprintf("bytes the SQLi source files write as literals and the byte-class alphabet lacks, inserted at every position of every string of 0..%d core symbols, and behind every hostile construct opener at the end of the input", 3), false, true, "")
+	c.srcByteInputs(p, extraBytes(srcDict().SQLBytes, gen.AlphaSQL), gen.CoreSQL, 3, sqlHostile, judge)
 	p = c.rec.NewPart("source_dictionary", fmt.Sprintf("%d lead constructs (closed and open literals of every kind, numbers, words, punctuation, comments) x blank? x W x blank? x every tail of 0..3 symbols over %q, for each word W (as written, upper, lower) that occurs as a literal in the SQLi source files and is not a table key", len(sqlDictLeads), sqlDictTail), false, true, "")
 	c.sqlDictInputs(p, 3, judge)
 	p = c.rec.NewPart("rapid_fragments", "rapid over the SQL fragment grammar", true, false, "")
